@@ -202,6 +202,24 @@ def alphabet(model, seed: int):
         calls.append({"k": "path", "uri": uri, "config": None, "style": "kw"})
         calls.append({"k": "path", "uri": uri, "config": None, "style": "default"})
     calls.append({"k": "path", "uri": "bla/bla", "config": None, "style": "default"})
+    # paths of SEARCH Sids (what a Finder globs with): several levels open, so that more than one path template may match
+    for t, f, s in picked[:4]:
+        keys = m.keys(t)
+        g = dict(f)
+        for k in keys[1:-1]:
+            if rnd.random() < 0.5 and m.accepts_value(t, k, "*") and not m.specs[(t, k)].free:
+                g[k] = "*"
+        if g == f:
+            continue
+        uri = t + ":" + m.render(t, g)
+        for c in configs:
+            pth = model.paths[c].render(t, g) if model.paths[c].has_path(t) else None
+            if pth:
+                rel = pth[len(model.paths[c].root()):]
+                for cfg in (None, c):
+                    calls.append({"k": "sid_path", "root": c, "rel": rel, "config": cfg})
+                calls.append({"k": "path", "uri": uri, "config": c, "style": "pos"})
+        calls.append({"k": "path", "uri": uri, "config": None, "style": "default"})
     # unfold
     searches = [x for x in strings if x][:14]
     for s in searches:
@@ -308,6 +326,36 @@ def families(model, seed: int):
                 calls.append({"k": "find_one", "finder": fd, "s": x})
             calls.append({"k": "find", "finder": fd, "s": wide, "consume": 1})
         fams.append(calls)
+    # one family of path calls around SEARCH Sids (several levels open: more than one path template may match the path, the
+    # resolver's fallback runs): path -> Sid and Sid -> path under every spelling of the configuration, in both orders
+    configs = list(model.paths)
+    calls = []
+    deep = sorted(fixed, key=lambda e: -len(m.keys(e[0])))
+    chosen = []
+    for e in deep:                      # one deep entity per basetype
+        if m.basetype(e[0]) not in [m.basetype(x[0]) for x in chosen]:
+            chosen.append(e)
+    for t, f, s in chosen[:2]:
+        keys = m.keys(t)
+        for variant in range(2):
+            g = dict(f)
+            for j, k in enumerate(keys[1:]):
+                if (variant == 0 or j in (0, 1, 3)) and m.accepts_value(t, k, "*") and not m.specs[(t, k)].free:
+                    g[k] = "*"
+            if g == f:
+                continue
+            uri = t + ":" + m.render(t, g)
+            for c in configs:
+                pth = model.paths[c].render(t, g) if model.paths[c].has_path(t) else None
+                if pth:
+                    rel = pth[len(model.paths[c].root()):]
+                    for cfg in (None, c):
+                        calls.append({"k": "sid_path", "root": c, "rel": rel, "config": cfg})
+                    for style in ("pos", "kw"):
+                        calls.append({"k": "path", "uri": uri, "config": c, "style": style})
+            calls.append({"k": "path", "uri": uri, "config": None, "style": "default"})
+    if calls:
+        fams.append(calls[:33])
     return fams
 
 
